@@ -4,6 +4,7 @@
    Code ranges: 17 Like; 100-199 Csv; 200-249 Reader (py + js + utf8); 250-259 reader spec + splitter + writer; 300-499 Engine; 500-599 Parser/Header (560-561 JsKey/Utf16, 565-566 JsSort, 570 NumLit); 600-699 Frontends/Isolation *)
 From RBQL Require Import Base Sx EntryLike EntryCsv EntryReader EntryTable EntryEngine EntryParser EntryHeader EntryHeaderJs EntryJoin EntryFront EntryJsKey EntryNumLit EntryJsSort.
 From RBQL Require Import EntryVarSpell.     (* 535-537 variable spellings (C08) *)
+From RBQL Require Import EntryCli.          (* 610 command-line outcome function (C13) *)
 
 Definition first_some (l : list (option sx)) : sx :=
   match flat_map (fun o => match o with Some v => [v] | None => [] end) l with
@@ -14,4 +15,4 @@ Definition first_some (l : list (option sx)) : sx :=
 Definition dispatch (code : N) (x : sx) : sx :=
   first_some [dispatch_like code x; dispatch_csv code x; dispatch_reader code x; dispatch_table code x;
               dispatch_engine code x; dispatch_parser code x; dispatch_header code x; dispatch_headerjs code x; dispatch_join code x; dispatch_front code x; dispatch_jskey code x; dispatch_numlit code x; dispatch_jssort code x;
-              dispatch_varspell code x].
+              dispatch_varspell code x; dispatch_cli code x].
